@@ -1,6 +1,7 @@
 package main
 
 import (
+	"sort"
 	"fmt"
 	"go/token"
 	"go/types"
@@ -1198,6 +1199,29 @@ func checkC07(w *World, r *Report) {
 					ok = true
 				}
 			}
+			if !ok {
+				// ... or every caller hands the delivery function an envelope it has found not to be a pill
+				sites, all := 0, true
+				for _, cf := range w.MethodsOf("actor", "process") {
+					cg := w.FGI(cf)
+					for _, ci := range w.callsIn(cf, EvCall("deliver", pr.deliverFn)) {
+						sites++
+						cn := cg.idx[ci.(ssa.Instruction)]
+						args := ci.Common().Args
+						ap := w.pathOf(args[len(args)-1])
+						guarded := false
+						for _, f := range cg.FactsAt(cn) {
+							if !f.Val && w.pathOf(f.Cond) == "assert<actor.poisonPill>("+ap+".Msg)#1" {
+								guarded = true
+							}
+						}
+						if !guarded {
+							all = false
+						}
+					}
+				}
+				ok = sites > 0 && all
+			}
 			r.Check(ok, "C07.R4", fname(pr.deliverFn)+":pill-suppressed", "the envelope's message is stored for delivery only if it is not a poisonPill", w.pos(st.Pos()),
 				"a poisonPill can be delivered to Receive (the drain loop re-visits the pill itself and later pills)")
 		}
@@ -1350,6 +1374,39 @@ func checkPillLinearity(w *World, r *Report, pr *procRoles, rule string) {
 				}
 			}
 			key := fmt.Sprintf("%s:pill[%s]", fname(fn), tap)
+			if !ok2 {
+				// a pill that is dropped: name the finding by where in the batch it is met, not by the function the test
+				// happens to be written in (the delivery function, or the drain loop it was moved into)
+				cls := ""
+				if fn == pr.invoke {
+					cls = deliverySiteClass(w, g, g.idx[ta])
+				} else if fn == pr.deliverFn && pr.invoke != nil {
+					ig := w.FGI(pr.invoke)
+					set := map[string]bool{}
+					for _, ci := range w.callsIn(pr.invoke, EvCall("deliver", pr.deliverFn)) {
+						dn := ig.idx[ci.(ssa.Instruction)]
+						// a call site that only ever sees non-pills (behind the failed pill test of the batch loop) cannot drop one
+						knownNoPill := false
+						for _, f := range ig.FactsAt(dn) {
+							if fp := w.pathOf(f.Cond); !f.Val && strings.HasPrefix(fp, "assert<actor.poisonPill>(") && strings.HasSuffix(fp, "#1") && deliverySiteClass(w, ig, dn) == "batch-element" {
+								knownNoPill = true
+							}
+						}
+						if !knownNoPill {
+							set[deliverySiteClass(w, ig, dn)] = true
+						}
+					}
+					var cs []string
+					for c := range set {
+						cs = append(cs, c)
+					}
+					sort.Strings(cs)
+					cls = strings.Join(cs, ",")
+				}
+				if cls != "" {
+					key = "pill-dropped[" + cls + "]"
+				}
+			}
 			r.Check(ok2, rule, key, "a recognised poison pill has its cancel called (or handed to the stop function) on every path", w.pos(ta.Pos()),
 				"a pill is consumed without its cancel ever being called: the context of that Stop/Poison call is never done (second pill of a batch; a parent waiting on a busy child that already holds a pill hangs)")
 		}
